@@ -348,6 +348,56 @@ def concurrent_case(kind, action):
         P.sleep = old_sleep
 
 
+def arrivals_and_close_in_one_pause(kind, action):
+    """A blocking receive() / for-loop waits on an idle port.  Inside ONE of its pauses (between two polls) messages become
+    deliverable AND the port is closed (what another thread does while this one sleeps; played here by the patched sleep, so
+    the interleaving is exact).  Drain then stop: the waiting call hands out the messages first."""
+    import mido.ports as P
+    old_sleep = P.sleep
+    state = {'done': False, 'calls': 0}
+    try:
+        if kind == 'multi':
+            kids = [P.EchoPort(), P.EchoPort()]
+            port = P.MultiPort(kids)
+        else:
+            port = P.EchoPort()
+            kids = [port]
+
+        def sleeper():
+            state['calls'] += 1
+            if state['calls'] > 50:
+                raise portsim.Hang()
+            if not state['done']:
+                state['done'] = True
+                kids[-1].send(portsim.msg_of(41))
+                kids[0].send(portsim.msg_of(42))
+                port.close()
+        P.sleep = sleeper
+        got = []
+        try:
+            if action == 'iter':
+                for m in port:
+                    got.append(portsim.ident(m))
+            else:
+                got.append(portsim.ident(port.receive()))
+                while True:
+                    m = port.poll()
+                    if m is None:
+                        break
+                    got.append(portsim.ident(m))
+        except portsim.Hang:
+            return f'the blocking {action} on the {kind} port never ended'
+        except Exception as e:
+            return (f'messages became deliverable and the port was closed inside one pause of a blocking {action} on the {kind} port: '
+                    f'it raised {type(e).__name__} ({e}) after handing out {got} instead of draining first')
+        if sorted(got) != [41, 42]:
+            return (f'messages 41, 42 became deliverable and the port was closed inside one pause of a blocking {action} on the {kind} '
+                    f'port: it handed out {got}')
+        return None
+    finally:
+        P.sleep = old_sleep
+
+
 def _chunk(cs):
     return [run_history(c) for c in cs]
 
@@ -499,6 +549,15 @@ def run(ck):
             f = concurrent_case(kind, action)
             if f:
                 ck.oracle_fail({'two_threads': [kind, action]}, f)
+    for kind in ('echo', 'multi'):
+        for action in ('receive', 'iter'):
+            if kind == 'echo' and action == 'iter':
+                continue
+            ck.evaluations += 1
+            ck.count('arrivals_and_close_in_one_pause')
+            f = arrivals_and_close_in_one_pause(kind, action)
+            if f:
+                ck.oracle_fail({'one_pause': [kind, action]}, f)
     mres = [r for part in pool_map(_mchunk, list(chunks(multis, 300))) for r in part]
     mreq, mimpl = [], []
     for (specs, ops), (lines, fail) in zip(multis, mres):
@@ -530,6 +589,8 @@ def oracle(case):
         return reset_independence(case['reset_independence'])
     if 'two_threads' in case:
         return concurrent_case(*case['two_threads'])
+    if 'one_pause' in case:
+        return arrivals_and_close_in_one_pause(*case['one_pause'])
     if 'multi' in case:
         return run_multi((case['multi'], [tuple(o) for o in case['ops']]))[1]
     spec = dict(case['spec'])
